@@ -204,8 +204,9 @@ type scope struct {
 	depth    int
 	list     bool // parent is a list entry
 	inChoice bool
-	underCh  bool // some ancestor (or the parent itself) is a choice/case: leaves here are no leafref targets (ygot cannot resolve them)
-	inAug    bool // statements are added inside an augment (no mandatory nodes: RFC 7950 7.17)
+	underCh  bool     // some ancestor (or the parent itself) is a choice/case: leaves here are no leafref targets (ygot cannot resolve them)
+	kinfo    *keyInfo // non-nil in the name space of a list entry (shared wherever names is shared): the keys drawn so far
+	inAug    bool     // statements are added inside an augment (no mandatory nodes: RFC 7950 7.17)
 }
 
 type target struct { // leafref target candidate
@@ -381,6 +382,7 @@ func (sc *scope) free(n string) bool { return !sc.names[n] && !sc.camel[camelCas
 
 // child creates the scope of a new container/list statement st named name under sc.
 func (sc *scope) child(st *stmt, name string, m *mod) *scope {
+	// (kinfo is not inherited: a container or list below a list entry opens a new name space)
 	c := &scope{m: sc.m, st: st, names: map[string]bool{}, camel: map[string]bool{}, inGrp: sc.inGrp, config: sc.config, depth: sc.depth + 1, underCh: sc.underCh || sc.inChoice, inAug: sc.inAug}
 	if !sc.inGrp {
 		c.dataPath = append(append([]seg{}, sc.dataPath...), seg{m, name})
